@@ -163,21 +163,26 @@ func (p *Parser) Stat(t *token.Token) (ast.Stat, *token.Token) {
 		return ast.NewLabelStat(name), p.Scan()
 	default:
 		var exp ast.ExpNode
-		exp, t = p.PrefixExp(t)
+		var inBkts bool
+		exp, t, inBkts = p.prefixExp(t)
 		switch e := exp.(type) {
 		case ast.Stat:
 			// This is a function call
 			return e, t
 		case ast.Var:
+			if inBkts {
+				// '(' var ')' is an expression, not a variable
+				tokenError(t, "")
+			}
 			// This should be the start of 'varlist = explist'
 			vars := []ast.Var{e}
 			var pexp ast.ExpNode
 			for t.Type == token.SgComma {
-				pexp, t = p.PrefixExp(p.Scan())
-				if v, ok := pexp.(ast.Var); ok {
+				pexp, t, inBkts = p.prefixExp(p.Scan())
+				if v, ok := pexp.(ast.Var); ok && !inBkts {
 					vars = append(vars, v)
 				} else {
-					tokenError(t, "expected variable")
+					tokenError(t, "variable")
 				}
 			}
 			expectType(t, token.SgAssign, "'='")
@@ -516,9 +521,18 @@ ParamsLoop:
 // PrefixExp parses an expression made of a name or and expression in brackets
 // followed by zero or more indexing operations or function applications.
 func (p *Parser) PrefixExp(t *token.Token) (ast.ExpNode, *token.Token) {
+	exp, t, _ := p.prefixExp(t)
+	return exp, t
+}
+
+// prefixExp is PrefixExp, also telling if the whole expression is of the form
+// '(' exp ')' (which is not a variable even when exp is one).
+func (p *Parser) prefixExp(t *token.Token) (ast.ExpNode, *token.Token, bool) {
 	var exp ast.ExpNode
+	inBkts := false
 	switch t.Type {
 	case token.SgOpenBkt:
+		inBkts = true
 		bktTok := t
 		exp, t = p.Exp(p.Scan())
 		switch e := exp.(type) {
@@ -543,10 +557,12 @@ func (p *Parser) PrefixExp(t *token.Token) (ast.ExpNode, *token.Token) {
 			expectType(t, token.SgCloseSquareBkt, "']'")
 			t = p.Scan()
 			exp = ast.NewIndexExp(exp, idxExp)
+			inBkts = false
 		case token.SgDot:
 			var name ast.Name
 			name, t = p.Name(p.Scan())
 			exp = ast.NewIndexExp(exp, name.AstString())
+			inBkts = false
 		case token.SgColon:
 			var name ast.Name
 			var args []ast.ExpNode
@@ -556,13 +572,15 @@ func (p *Parser) PrefixExp(t *token.Token) (ast.ExpNode, *token.Token) {
 				tokenError(t, "expected function arguments")
 			}
 			exp = ast.NewFunctionCall(exp, name, args)
+			inBkts = false
 		default:
 			var args []ast.ExpNode
 			args, t = p.Args(t)
 			if args == nil {
-				return exp, t
+				return exp, t, inBkts
 			}
 			exp = ast.NewFunctionCall(exp, ast.Name{}, args)
+			inBkts = false
 		}
 	}
 }
